@@ -141,6 +141,11 @@ fn shard(seed: u64, shard: u64, n: u64) -> Tally {
                 signed.push(n.clone());
             }
         }
+        if dropped.contains(&"host") && r.chance(1, 2) {
+            // near misses of the mandatory names do not satisfy the rule
+            signed.push(r.pick(&["hostx", "host2", "xhost", ":authorityx", "hos", "authority"]).to_string());
+            signed.retain(|s| present.contains(s) || s.starts_with("host") || s.contains("authorit") || s == "hos" || s == "xhost");
+        }
         signed.sort();
         signed.dedup();
         // an always-required header that is absent from the request cannot be signed meaningfully; keep those cases
